@@ -1326,6 +1326,15 @@ func (g *gen) behC18() M {
 			}
 			steps = append(steps, send(M{"t": "Q", "q": q}))
 		case 2:
+			if g.chance(0.4) {
+				// a Parse the parser rejects, with the rest of its batch: the rejected text is kept like any other
+				g.id++
+				q := M{"id": g.id, "parse": "err", "perr": g.simpleErr(), "stmts": []any{}, "pad": 30 + g.rng.Intn(200)}
+				steps = append(steps, send(M{"t": "P", "name": "", "q": q, "noids": 0}),
+					send(M{"t": "B", "portal": "", "stmt": "", "pfmt": []any{}, "params": []any{M{"null": false, "_hex": hex.EncodeToString([]byte(g.text(40)))}}, "rfmt": []any{}}),
+					send(M{"t": "E", "portal": "", "max": 0}), send(M{"t": "S"}))
+				continue
+			}
 			steps = append(steps, send(M{"t": "Big", "ty": g.pick("Q", "d", "U"), "over": []int{1, 100, L, 2*L + 7}[g.rng.Intn(4)]}))
 		case 3:
 			// extended: parameters of various sizes
@@ -1342,9 +1351,15 @@ func (g *gen) behC18() M {
 				g.rng.Read(b)
 				params = append(params, M{"null": false, "_hex": hex.EncodeToString(b)})
 			}
+			pn := g.pick("", "p1")
 			steps = append(steps, send(M{"t": "P", "name": "", "q": M{"id": g.id, "parse": "ok", "stmts": []any{st}}, "noids": 0}),
-				send(M{"t": "B", "portal": "", "stmt": "", "pfmt": []any{1}, "params": params, "rfmt": []any{}}),
-				send(M{"t": "E", "portal": "", "max": g.maxRows()}), send(M{"t": "S"}))
+				send(M{"t": "B", "portal": pn, "stmt": "", "pfmt": []any{1}, "params": params, "rfmt": []any{}}),
+				send(M{"t": "E", "portal": pn, "max": g.maxRows()}))
+			if g.chance(0.5) {
+				// the portal is closed afterwards: what its statement function was given stays as it was
+				steps = append(steps, send(M{"t": "C", "kind": "P", "name": pn}))
+			}
+			steps = append(steps, send(M{"t": "S"}))
 		default:
 			// COPY with chunks of various sizes
 			g.id++
